@@ -1,6 +1,8 @@
 (* C13 entry: which < 50 the action plugins (Model/Actions/Entry.v), 51 / 52 the join-template checks and the field
-   selector parser (Model/Actions/Templates.v), every other which >= 50 the processor-level clause on pipeline traces *)
-From Verif Require Import Base.Sx Model.Actions.Entry Model.Actions.Templates Model.PipeEntry.
+   selector parser (Model/Actions/Templates.v), 53 the per-processor instances of one action run concurrently
+   (Model/Actions/Procs.v), every other which >= 50 the processor-level clause on pipeline traces *)
+From Verif Require Import Base.Sx Model.Actions.Entry Model.Actions.Templates Model.Actions.Procs Model.PipeEntry.
 Definition c13_full_entry (which : Z) (case obs : sx) : verdict :=
   if (which =? 51) || (which =? 52) then c13_cov_entry which case obs
+  else if which =? 53 then c13_procs_entry which case obs
   else if 50 <=? which then c13_pipe_entry which case obs else c13_actions_entry which case obs.
